@@ -531,6 +531,52 @@ pub fn run(tier: &str, prop: &str) -> i32 {
         full += a.full;
         runs += a.runs;
     }
+    // C07: the streaming wrapper (32 KiB window, dict_ofs/dict_avail hand-off): every constant
+    // (chunk, room) schedule of the None-loop gives the transcript of the (rest, large) loop
+    let mut wrapper_runs = 0u64;
+    if prop == "C07" {
+        let all: Vec<&GenStream> = ss.iter().chain(big.iter()).collect();
+        let wr = par_for(all.len(), || 0u64, |i, acc| {
+            watchdog::tick(900_000 + i as u64, 0);
+            let s = all[i];
+            let fmts: Vec<miniz_oxide::DataFormat> = if s.zlib { vec![miniz_oxide::DataFormat::Zlib, miniz_oxide::DataFormat::ZLibIgnoreChecksum] } else { vec![miniz_oxide::DataFormat::Raw] };
+            for fmt in fmts {
+                let reference = inflate_loop_const(&s.bytes, fmt, usize::MAX, 1 << 20, miniz_oxide::MZFlush::None);
+                let bigs = s.bytes.len() > 3000;
+                for chunk in [1usize, 2, 3, 13, 4096, usize::MAX] {
+                    for room in [1usize, 2, 3, 7, 259, 1000, 1 << 20] {
+                        if bigs && (chunk < 13 || room < 7) && !(chunk == 1 && room == 1 << 20) && !(chunk == usize::MAX && room == 1) {
+                            continue;
+                        }
+                        watchdog::pulse();
+                        *acc += 1;
+                        let r = match guarded(|| inflate_loop_const(&s.bytes, fmt, chunk, room, miniz_oxide::MZFlush::None)) {
+                            Ok(r) => r,
+                            Err(p) => {
+                                rep.violation("C07/wrapper/panic", format!("inflate() panicked: {}", p), json!({"wrapper": true, "stream_hex": hex(&s.bytes), "zlib": s.zlib, "chunk": chunk.min(1 << 40), "room": room}));
+                                continue;
+                            }
+                        };
+                        // starvation markers (-7778: nothing left to offer) compare as "needs more input"
+                        let class = |c: i32| if c == -5 || c == -7778 { -5 } else { c };
+                        if class(r.code) != class(reference.code) || r.out != reference.out || r.consumed != reference.consumed {
+                            // one specific, separately keyed pattern: same error verdict and consumed
+                            // count, delivered bytes a proper prefix of the reference output (bytes
+                            // decoded into the window but not yet handed out when the error surfaced)
+                            let dropped = r.code < 0 && class(r.code) == class(reference.code) && r.consumed == reference.consumed && r.out.len() < reference.out.len() && reference.out.starts_with(&r.out);
+                            rep.violation(
+                                &if dropped { "C07/wrapper/error-drops-pending-output".to_string() } else { format!("C07/wrapper-transcript-differs/{}->{}", reference.code, r.code) },
+                                format!("inflate() loop with chunk {} room {} ends code {} with {} bytes out, {} consumed; the (rest, large) loop ends code {} with {} bytes out, {} consumed [{}] {}",
+                                    chunk as isize, room, r.code, r.out.len(), r.consumed, reference.code, reference.out.len(), reference.consumed, s.desc, fmt_name(fmt)),
+                                json!({"wrapper": true, "stream_hex": if s.bytes.len() < 4000 { json!(hex(&s.bytes)) } else { Value::Null }, "stream_desc": s.desc, "zlib": s.zlib, "fmt": fmt_name(fmt), "chunk": chunk.min(1 << 40), "room": room}),
+                            );
+                        }
+                    }
+                }
+            }
+        });
+        wrapper_runs = wr.iter().sum();
+    }
     // C08: limit functions
     let mut limit_evals = 0u64;
     if prop == "C08" {
@@ -579,6 +625,7 @@ pub fn run(tier: &str, prop: &str) -> i32 {
     rep.set("canary_twin_checks", json!(canary));
     rep.set("region_full_returns", json!(full));
     rep.set("limit_function_evaluations", json!(limit_evals));
+    rep.set("inflate_wrapper_schedule_runs", json!(wrapper_runs));
     rep.set("explanation", json!("every trace is an implementation trace: the explorer forks the real DecompressorOxide (Clone) and calls decompress_with_limit; states = distinct 128-bit fingerprints of (complete decoder state, cursors, ring contents) when hooks are on; full unbounded-depth exploration with dedup over chunk {0,1,2,3,rest} x budget {0,1,2,3,unlimited} for short streams in flat and ring(8,64) modes; deviation-bounded search around 6 constant policies with the 10x9 chunk/budget alphabet; every input composition for streams <= 16/22 bytes; every constant budget"));
     rep.sample(json!({"stream": ss[ss.len() / 3].desc, "mode": "Flat", "schedule": [[1, -1], [0, 2], [-1, 3], [-1, -1]], "meaning": "[input bytes revealed, output budget] per call; -1 = rest/unlimited"}));
     rep.sample(json!({"stream": ss[ss.len() / 2].desc, "mode": "Ring(64)", "policy": [4, 3], "deviation_at_call": 5, "alternative": [13, 258]}));
@@ -612,6 +659,22 @@ pub fn replay(v: &Value, prop: &str) -> Option<String> {
                 }
             }
         };
+    }
+    if v.get("wrapper").is_some() {
+        let bytes = match v["stream_hex"].as_str() {
+            Some(h) => unhex(h),
+            None => big_streams().into_iter().chain(schedule_streams(true)).find(|s| Some(s.desc.as_str()) == v["stream_desc"].as_str())?.bytes,
+        };
+        let fmt = match v["fmt"].as_str().unwrap_or("Raw") {
+            "Zlib" => miniz_oxide::DataFormat::Zlib,
+            "ZLibIgnoreChecksum" => miniz_oxide::DataFormat::ZLibIgnoreChecksum,
+            _ => miniz_oxide::DataFormat::Raw,
+        };
+        let f = |x: u64| if x >= 1 << 40 { usize::MAX } else { x as usize };
+        let reference = inflate_loop_const(&bytes, fmt, usize::MAX, 1 << 20, miniz_oxide::MZFlush::None);
+        let r = inflate_loop_const(&bytes, fmt, f(v["chunk"].as_u64()?), v["room"].as_u64()? as usize, miniz_oxide::MZFlush::None);
+        let class = |c: i32| if c == -5 || c == -7778 { -5 } else { c };
+        return if class(r.code) != class(reference.code) || r.out != reference.out || r.consumed != reference.consumed { Some(format!("wrapper transcript differs: code {} vs {}", r.code, reference.code)) } else { None };
     }
     let zlib = v["zlib"].as_bool()?;
     let desc = v["stream_desc"].as_str()?.to_string();
